@@ -70,9 +70,10 @@ def install(ctx, repo, probes):
               "shift/print-format", "shift/parse-format",
               "shift/print-strftime", "shift/print-strftime-fallback",
               "shift/parse-format-zone", "shift/parse-format-zone-utc",
+              "shift/parse-format-ref",
               "shift/ctime-notation", "shift/ctime-notation-nominal-offset",
               "shift/print-strftime-same-instant-pair",
-              "rec/last-printable-point",
+              "rec/last-printable-point", "diff/nominal-offset2-other-zone",
               "shift/print-strftime-fallback-week-date", "diff/plain", "diff/offsets",
               "diff/as-total", "diff/negative", "diff/zero", "diff/zero-as-total",
               "diff/same-nominal-offsets-both-sides", "total/zero", "rec/forward", "rec/reverse",
@@ -564,6 +565,42 @@ def make_print_strftime(rng):
             "nontrivial": True}
 
 
+def diff_zone_cases():
+    """two date-times in different zones, the second on a day that is
+    another calendar day in the first one's zone, with a month or year
+    offset on the second: each point is shifted in its own zone"""
+    mode = "gregorian"
+    for t1, t2, o2 in (
+            ("2020-01-01T00:00:00Z", "2020-03-01T00:30:00+01:00", "P1M"),
+            ("2020-01-01T00:00:00Z", "2020-03-01T00:30:00+01:00", "-P1M"),
+            ("2019-06-01T12:00:00+05:30", "2020-02-29T23:30:00-01:00", "P1Y"),
+            ("2021-01-01T00:00:00-08:00", "2021-01-31T20:00:00-08:00", "P1M"),
+            ("2020-12-31T22:00:00Z", "2021-01-01T03:00:00+05:00", "-P1M"),
+            ("2020-05-31T00:10:00+02:00", "2020-05-30T23:50:00Z", "P1M")):
+        def rd_of(text):
+            y, m, d = int(text[0:4]), int(text[5:7]), int(text[8:10])
+            H, M, S = int(text[11:13]), int(text[14:16]), int(text[17:19])
+            z = text[19:]
+            off = 0 if z == "Z" else (1 if z[0] == "+" else -1) * (
+                int(z[1:3]) * 60 + int(z[4:6]))
+            return {"rep": "cal", "date": (y, m, d),
+                    "sod": F(H * 3600 + M * 60 + S), "off": off}
+        sign = -1 if o2.startswith("-") else 1
+        body = o2.lstrip("-")
+        dt = (sign if body == "P1Y" else 0, sign if body == "P1M" else 0, 0)
+        a = rd_of(t1)
+        b = R.pt_add(mode, rd_of(t2), dt)
+        length = R.pt_instant(mode, b) - R.pt_instant(mode, a)
+        for style in ("--offset2=" + o2, ):
+            yield {"op": "run", "argv": [t1, t2, style], "env": {},
+                   "local": [0, 0],
+                   "expect": {"duration_seconds": [length.numerator,
+                                                   length.denominator]},
+                   "classes": ["diff/offsets",
+                               "diff/nominal-offset2-other-zone"],
+                   "nontrivial": True}
+
+
 def rec_edge_cases():
     """--max=N prints N points even when point N+1 could not be printed
     (beyond the last / before the first year the notation can hold)"""
@@ -794,10 +831,21 @@ def make_parse_format(rng, mode):
                       H=sod // 3600, M=sod % 3600 // 60, S=sod % 60)
     argv = [rng.choice(("--parse-format", "-p")), fmt, text,
             "--offset=" + otext, "--calendar", mode]
-    return {"op": "run", "argv": argv, "env": {}, "local": [0, 0],
+    env = {}
+    classes = ["shift/parse-format", "calendar/" + mode]
+    v = rng.random()
+    if v < 0.3:
+        # the same text given as the reference point (option or variable)
+        # and named by the ref item: it is read with the parse format too
+        argv[2] = "ref"
+        if v < 0.15:
+            argv += [rng.choice(("--ref", "-R")), text]
+        else:
+            env["ISODATETIMEREF"] = text
+        classes.append("shift/parse-format-ref")
+    return {"op": "run", "argv": argv, "env": env, "local": [0, 0],
             "expect": {"stdout": out + "\n"},
-            "classes": ["shift/parse-format", "calendar/" + mode],
-            "nontrivial": True}
+            "classes": classes, "nontrivial": True}
 
 
 def make_parse_format_zone(rng, mode):
@@ -1042,6 +1090,9 @@ def workload(ctx, repo):
     rng = ctx.rng
     if ctx.worker == 0:
         for case in rec_edge_cases():
+            ctx.case = case
+            run_case(ctx, repo, case)
+        for case in diff_zone_cases():
             ctx.case = case
             run_case(ctx, repo, case)
         for case in ctime_fixed_cases():
